@@ -4,4 +4,4 @@ go 1.19
 
 require github.com/ichiban/prolog v0.0.0
 
-replace github.com/ichiban/prolog => /repo
+replace github.com/ichiban/prolog => /tmp/wP4/repo
